@@ -224,6 +224,7 @@ def e2_run(pid, tier, modules, flavours=("on", "off"), only=None, assumptions=No
         for mod in modules:
             mod.run(L, tier, only)
         sm = L.summary()
+        replays += getattr(L, "selftest_traces", 0)
         per_flavour["overflow-checks=" + fl] = dict(sm, solver_queries=ex.queries, solver_time_s=round(ex.solver_time, 2),
                                                      mir=os.path.basename(ex.mir_path))
         paths += sm["paths"]
